@@ -52,7 +52,11 @@ class JSONSheetReader(AbstractSheetReader):
         for name, content in data["sheets"].items():
             table = tablib.Dataset()
             table.dict = content
-            self._sheets[name] = Sheet(reader=self, name=name, table=table)
+            self._sheets[name] = Sheet(
+                reader=self,
+                name=name,
+                table=omit_empty_rows(table),
+            )
 
 
 class XLSXSheetReader(AbstractSheetReader):
@@ -194,13 +198,25 @@ class CompositeSheetReader:
 
 def load_csv(path):
     with open(path, mode="r", encoding="utf-8", newline="") as csv:
-        return tablib.import_set(csv, format="csv")
+        return omit_empty_rows(tablib.import_set(csv, format="csv"))
 
 
 def load_json(path):
     with open(path, mode="r", encoding="utf-8") as fjson:
         data = json.load(fjson)
     return data
+
+
+def omit_empty_rows(table):
+    """
+    Remove rows whose cells are all empty strings, as XLSXSheetReader does, so that a
+    sheet reads the same from every format.
+    """
+    for index in reversed(range(table.height)):
+        if not any(cell != "" for cell in table[index]):
+            del table[index]
+
+    return table
 
 
 def pad(row, n):
